@@ -772,6 +772,10 @@ func (e *Ev) evComposite(x *ast.CompositeLit) Val {
 		e.unsupp(x, "composite literal in contract")
 	}
 	switch u := t.Underlying().(type) {
+	case *types.Map:
+		if len(x.Elts) == 0 && !e.contract {
+			return e.makeMap(u, x)
+		}
 	case *types.Struct:
 		v := e.fx.zero(t).(VStruct)
 		v = cloneStruct(v)
